@@ -489,6 +489,14 @@ int main(int argc, char** argv)
             Bytes m = cur.bytes;
             m[a] = (unsigned char)b;
             say(readBack(m.data(), m.size(), false));
+        } else if (t[0] == "m" && t.size() >= 3 && t.size() % 2 == 1) {
+            Bytes m = cur.bytes;
+            bool ok = true;
+            for (size_t i = 1; ok && i + 1 < t.size(); i += 2) {
+                ok = nat(t[i], a) && nat(t[i + 1], b) && a < m.size() && b < 256;
+                if (ok) m[a] = (unsigned char)b;
+            }
+            say(ok ? readBack(m.data(), m.size(), false) : std::string("bad-op"));
         } else if (t[0] == "tall" && t.size() == 1) {
             std::vector<std::string> l;
             for (size_t k = 0; k < cur.bytes.size(); ++k) l.push_back(readBack(cur.bytes.data(), k, true));
